@@ -8,6 +8,8 @@ import (
 	"unicode/utf8"
 
 	"github.com/jf-tech/omniparser/header"
+	"golang.org/x/text/encoding"
+	"golang.org/x/text/encoding/charmap"
 )
 
 type encTable struct {
@@ -53,18 +55,35 @@ func c18Drive(args []string) int {
 		fmt.Sscanf(args[2], "%d", &nrandom)
 	}
 	sum := newSummary()
-	// B1: bind the specification's code-page tables to the real decoder, all 512 (byte, encoding) pairs
+	// B1, all 512 (byte, encoding) pairs, two bindings of Encoding.tla's code-page tables:
+	//  - to the standard code pages as implemented outside the repository (x/text charmap): a difference is a
+	//    problem of the specification (spec_mismatch, inconclusive);
+	//  - to what the repository does with a declared encoding (header.ParserSettings.WrapEncoding): a difference is
+	//    a violation - the declared encoding is not decoded with its standard code page.
 	mism := 0
+	std := map[string]encoding.Encoding{"iso-8859-1": charmap.ISO8859_1, "windows-1252": charmap.Windows1252}
 	for enc, table := range tables {
 		e := enc
 		ps := header.ParserSettings{Encoding: &e}
+		wrong := []int{}
 		for b := 0; b < 256; b++ {
+			want := toUTF8(table, []byte{byte(b)})
+			if cm, ok := std[enc]; ok {
+				ref, _ := cm.NewDecoder().Bytes([]byte{byte(b)})
+				if !bytes.Equal(ref, want) {
+					mism++
+					emit(M{"kind": "spec_mismatch", "enc": enc, "byte": b, "spec": table[b], "decoder": fmt.Sprintf("%x", ref)})
+				}
+			}
 			got, _ := ioutil.ReadAll(ps.WrapEncoding(bytes.NewReader([]byte{byte(b)})))
-			if !bytes.Equal(got, toUTF8(table, []byte{byte(b)})) {
-				mism++
-				emit(M{"kind": "spec_mismatch", "enc": enc, "byte": b, "spec": table[b], "decoder": fmt.Sprintf("%x", got)})
+			if !bytes.Equal(got, want) {
+				wrong = append(wrong, b)
 			}
 			sum.eval(b >= 0x80, M{"e": enc, "b": b})
+		}
+		if len(wrong) > 0 {
+			violation("C18", "decoder-differs-from-code-page:"+enc, fmt.Sprintf("encoding %s: %d byte value(s) are not decoded with the standard code page, first 0x%02X (all: %v)", enc, len(wrong), wrong[0], wrong),
+				M{"enc": enc, "bytes": wrong})
 		}
 	}
 	sum.inc("spec_mismatch", mism)
